@@ -848,20 +848,26 @@ func (s *sim) checkNode(n *nodeSim, step, phase string) error {
 		prev, hadPrev := n.last[k]
 		n.last[k] = real
 		n.cur[k] = real
-		if n.taint[k] {
-			continue
-		}
+		// monotonicity is judged against the previous observation at every step; the LWW
+		// comparison is suspended for a key after a reported/known deviation until the node
+		// holds the LWW result again
 		if hadPrev && prev.HasDig && (!real.HasDig || newer(prev.ID, real.ID)) {
 			n.taint[k] = true
 			s.note(prev.ID, "overwritten:"+phase)
-			if err := s.violate("digest-regressed:"+phase, "%s: on %s the stored digest of %s moved backwards from %s to %s",
+			kind := "older-version"
+			if !real.HasDig {
+				kind = "digest-removed"
+			} else if real.ID.Ver == prev.ID.Ver {
+				kind = "tie"
+			}
+			if err := s.violate("digest-regressed:"+phase+":"+kind, "%s: on %s the stored digest of %s moved backwards from %s to %s",
 				step, n.label(), k, prev, real); err != nil {
 				return err
 			}
 			continue
 		}
 		if !n.have[k] {
-			if real.HasDig || real.HasVal {
+			if (real.HasDig || real.HasVal) && !n.taint[k] {
 				n.taint[k] = true
 				if err := s.violate("state-not-lww:unknown-op:"+phase, "%s: %s holds %s for %s but was never given an operation on it", step, n.label(), real, k); err != nil {
 					return err
@@ -870,6 +876,12 @@ func (s *sim) checkNode(n *nodeSim, step, phase string) error {
 			continue
 		}
 		exp := n.best[k]
+		if n.taint[k] {
+			if real.HasDig && real.ID == exp.ID && real.Del == exp.Del && real.HasVal == !exp.Del && (exp.Del || real.Val == exp.Val) {
+				n.taint[k] = false
+			}
+			continue
+		}
 		sig := ""
 		switch {
 		case !real.HasDig:
